@@ -1193,9 +1193,36 @@ def history_lines_real(b):
 
 THEOREMS = ['Props.C20.' + t for t in [
     'to_tough2_declares_tough2', 'to_tough2_succeeds', 'to_tough2_no_autough2_sections', 'to_tough2_other_sections',
-    'to_tough2_generators']]
-LEVEL_TEXT = ''
-LEVEL_NOTE = ''
+    'to_tough2_generators', 'to_tough2_lookup', 'to_tough2_list_lookup_consistent', 'to_tough2_keeps_grid_and_history',
+    'to_tough2_rocks', 'params_a2t_rocks', 'to_tough2_mop', 'mop_a2t_matches_code',
+    'to_tough2_history_roundtrip_partial', 'goft_generator_request_lost', 'to_autough2_declares_autough2', 'to_autough2_succeeds',
+    'to_autough2_sections', 'to_autough2_keeps_model', 'to_autough2_mop', 'mop_t2a_matches_code',
+    'to_autough2_short', 'to_autough2_requests_kept_partial', 'goft_block_request_dropped', 'type_setter_dispatch',
+    'rock_cells_partition', 'rock_cells_own_type_exists', 'boundary_blocks_complement', 'sources_spec',
+    'source_cell_is_block_index', 'eos_explicit', 'eos_from_multi', 'eos_from_simulator',
+    'eos_detected_from_simulator',
+]] + [
+    # obligations on the generated tables (decide over the whole table, re-elaborated against /repo's current tables)
+    'Proofs.Convert.convert_targets_tough2',
+    'Proofs.Convert.lineq_to_solver_table',
+    'Proofs.Convert.solver_to_lineq_table',
+    'Proofs.Convert.cond_table',
+    'Proofs.Convert.type_names_table',
+    'Proofs.Convert.sections_nodup',
+    'Proofs.Waiwera.supportedEos_laterLonger',
+]
+LEVEL_TEXT = ('Proof: 33 Lean theorems (no sorry) about an executable model of convert_to_TOUGH2 / convert_to_AUTOUGH2 / the type setter / '
+              'update_sections and of the EOS, rock-cell, boundary-set and source parts of json(): the converted model declares the other flavour and '
+              'holds none of the foreign sections or data; unsupported generators leave list and lookup, convertible ones are converted, the rest, '
+              'grid, rocks (conductivity x (1-porosity) exactly for MOP(10)=2) and history requests are unchanged; MOP digits change position by '
+              'position as a table evaluated on the real code says (decide over all 25x10x2 entries, both directions); rock cells partition the '
+              'non-boundary blocks; one source per non-group generator with the cell of its block; EOS from explicit name, MULTI or the longest '
+              'supported suffix of the simulator string. PARTIAL: the file round trip and the "history requests unchanged" clause are proved only '
+              'for FOFT/COFT and for GOFT without t2generator items / with empty history_generator (two known findings, each with a proved witness '
+              'in the model and a replay on the real code); the byte-level round trip is evaluated by the oracle on the real write()/read().')
+LEVEL_NOTE = ('Trusted: Lean kernel (+propext, Classical.choice, Quot.sound); the hand-written models Model/Convert.lean, Model/Waiwera.lean (tied by '
+              '7 correspondence facets, ~30k compared observations per quick run, 0 disagreements); the translator of the conversion tables; the oracle. '
+              'Not modelled: numeric payload of Waiwera sources, mesh/initial/boundary-face sections, extra-precision and mesh-file variants of write().')
 TECHNIQUE = ('Lean 4 proofs over an executable model of the conversion / export control flow + generated tables re-checked by `decide` '
              '+ differential correspondence with the real t2data object + direct property oracle incl. real file round trip')
 ASSUMPTIONS = [
